@@ -168,11 +168,12 @@ let handle (x : sexp) : (string * string) list =
     (* ---------------- observables as Coq records *)
     let ups_obs = List.concat_map (fun (i, pi, _, _, _, _, _, ups, _, _, _, _, _, _) ->
       List.map (function
-        | L [A "u"; A fid; A seq; A status; A nerr; L (A "cc" :: cc); L (A "reps" :: reps); _] ->
+        | L [A "u"; A fid; A seq; A status; A nerr; L (A "cc" :: cc); L (A "reps" :: reps); _; L (A "ents" :: ents)] ->
           let f = fetch_of_pf pi (int_of_string fid) in
           { uo_run = nat_of_int i; uo_seq = nat_of_int (int_of_string seq); uo_status = n_of_int (int_of_string status);
             uo_nerrs = n_of_int (int_of_string nerr); uo_cc = List.map sbytes cc;
-            uo_keys = List.map (fun r -> { ck_rep = sbytes r; ck_header = f.f_header; ck_footer = f.f_footer }) reps }
+            uo_keys = List.map (fun r -> { ck_rep = sbytes r; ck_header = f.f_header; ck_footer = f.f_footer }) reps;
+            uo_entities = List.map json_of ents }
         | _ -> raise (Sexp_error "u")) ups) parsed_steps in
     let unknown_keys = ref 0 in
     let keys_of_l l = List.filter_map (fun k -> match key_of k with Some k -> Some k | None -> incr unknown_keys; None) l in
@@ -191,14 +192,14 @@ let handle (x : sexp) : (string * string) list =
                             opi run (List.length ks) (List.length fs) (sbool err))
       | L [A "set"; A run; A seq; L (A "items" :: its); L (A "stored" :: _); _; A _] ->
         let items = List.filter_map (function
-          | L [A "it"; k; _; _; A ttl] -> (match key_of k with Some k -> Some (k, z_of_decimal ttl) | None -> incr unknown_keys; None)
+          | L [A "it"; k; j; _; A ttl] -> (match key_of k with Some k -> Some ((k, json_of j), z_of_decimal ttl) | None -> incr unknown_keys; None)
           | _ -> None) its in
         nstored := !nstored + List.length items;
         let s = { so_run = nat_of_int (int_of_string run); so_seq = nat_of_int (int_of_string seq); so_items = items } in
         if not (refused_b default ups_obs s) then
           add "specfail" (Printf.sprintf "refused op=%d run=%s: entities stored from a response whose Cache-Control gives no lifetime" opi run)
         else if not (stored_ok_b default ups_obs s) then
-          add "specfail" (Printf.sprintf "stored_ok op=%d run=%s: stored from an unclean response, with a lifetime above the header's, or under a foreign key" opi run)
+          add "specfail" (Printf.sprintf "stored_ok op=%d run=%s: stored from an unclean response, with a lifetime above the header's, or not the entity the response holds at the key's position" opi run)
       | _ -> raise (Sexp_error "cachelog op")) logx;
     List.iter (fun u ->
       if not (sent_has_miss_b !gets u) then
@@ -236,7 +237,7 @@ let handle (x : sexp) : (string * string) list =
       (* upstream requests, per step in order *)
       let m_ups run x = List.filter_map (fun ((r, rq), _) -> if int_of_nat r = run then Some (int_of_n rq.rq_fetch, List.map string_of_bytes rq.rq_reps) else None) x.cs_upstream in
       List.iter (fun (i, _, _, _, _, _, _, ups, nups, _, _, _, _, _) ->
-        let i_ups = List.map (function L [A "u"; A fid; _; _; _; _; L (A "reps" :: reps); _] -> (int_of_string fid, List.map str reps) | _ -> raise (Sexp_error "u")) ups in
+        let i_ups = List.map (function L [A "u"; A fid; _; _; _; _; L (A "reps" :: reps); _; _] -> (int_of_string fid, List.map str reps) | _ -> raise (Sexp_error "u")) ups in
         let i_nups = List.map (function L (A fid :: reps) -> (int_of_string fid, List.map str reps) | _ -> raise (Sexp_error "nu")) nups in
         let show l = String.concat " " (List.map (fun (f, reps) -> Printf.sprintf "(%d %s)" f (String.concat "," reps)) l) in
         if m_ups i xf <> i_ups then add "mismatch" (Printf.sprintf "corr:C16/upstream step=%d model=[%s] impl=[%s]" i (show (m_ups i xf)) (show i_ups));
@@ -273,8 +274,12 @@ let handle (x : sexp) : (string * string) list =
     with
     | Oracle_miss m -> add "mismatch" ("corr:C16/upstream the model asks the oracle for something the implementation never asked: " ^ m)
     | Oracle_clash m -> add "error" m);
+    let nnull = List.fold_left (fun acc u -> acc + List.length (List.filter (fun e -> e = JNull) u.uo_entities)) 0 ups_obs in
+    let nullfirst = List.length (List.filter (fun u ->
+      let rec go seen = function [] -> false | JNull :: r -> go true r | JObj _ :: r -> seen || go seen r | _ :: r -> go seen r in
+      go false u.uo_entities) ups_obs) in
     let nontrivial = !nstored > 0 && !nhits > 0 in
-    ("ok", Printf.sprintf "%s stored=%d hits=%d partial=%d steps=%d" (if nontrivial then "nt" else "tr") !nstored !nhits !npartial (List.length steps)) :: List.rev !res
+    ("ok", Printf.sprintf "%s stored=%d hits=%d partial=%d steps=%d nullents=%d nullbeforeobj=%d" (if nontrivial then "nt" else "tr") !nstored !nhits !npartial (List.length steps) nnull nullfirst) :: List.rev !res
   | _ -> [("error", "unrecognised case")]
 
 let () = run_lines Sys.argv.(1) Sys.argv.(2) handle
